@@ -415,6 +415,7 @@ type c11Gen struct {
 	valN    int
 	atomic  bool
 	cfAllow []string
+	qLetter byte // letter of most keys of the large auxiliary key space in this sequence
 }
 
 func (g *c11Gen) val() []byte {
@@ -445,8 +446,8 @@ func (g *c11Gen) key() []byte {
 }
 
 // qKey: a key of the large auxiliary key space Xq0000..Xq1999, mostly with the given letter.
-func (g *c11Gen) qKey(main byte) []byte {
-	l := main
+func (g *c11Gen) qKey() []byte {
+	l := g.qLetter
 	if g.rng.Intn(5) == 0 {
 		l = byte('a' + g.rng.Intn(8))
 	}
@@ -649,29 +650,27 @@ func (g *c11Gen) op(nClients int) *c11Op {
 		o.Keys, o.Vals, o.TTLs = [][]byte{g.key()}, [][]byte{g.val()}, []uint64{uint64(1_000_000 + g.rng.Intn(1000))}
 	case "batchget", "batchdelete":
 		o.Keys = g.batchKeys(&o.Class)
-		if g.rng.Intn(15) == 0 {
+		if g.rng.Intn(22) == 0 {
 			// more keys per region than one batch request carries (512)
 			o.Class = append(o.Class, "big-batch")
 			n := 1100 + g.rng.Intn(1300)
-			main := byte('a' + g.rng.Intn(8)) // most keys share a letter, so one region gets more than 512 of them
+			// most keys share a letter, so one region gets more than 512 of them
 			for i := 0; i < n; i++ {
 				if g.rng.Intn(4) == 0 {
 					o.Keys = append(o.Keys, c11DataKeys[g.rng.Intn(len(c11DataKeys))])
 				} else {
-					o.Keys = append(o.Keys, g.qKey(main))
+					o.Keys = append(o.Keys, g.qKey())
 				}
 			}
 		}
 	case "batchput", "batchputttl":
 		o.Keys = g.batchKeys(&o.Class)
-		if g.rng.Intn(30) == 0 {
-			// many distinct keys (short values), so that later big batch gets /
-			// deletes meet more than 512 present keys in one region
+		if g.rng.Intn(60) == 0 {
+			// many distinct keys (short values)
 			o.Class = append(o.Class, "big-batch")
 			n := 700 + g.rng.Intn(700)
-			main := byte('a' + g.rng.Intn(8))
 			for i := 0; i < n; i++ {
-				o.Keys = append(o.Keys, g.qKey(main))
+				o.Keys = append(o.Keys, g.qKey())
 			}
 		}
 		big := len(o.Keys) < 100 && g.rng.Intn(25) == 0
@@ -817,16 +816,20 @@ func (s *c11Seq) step(o *c11Op) int {
 	s.opN++
 	layoutBefore := env.layout()
 	regsBefore := env.regions()
-	before := m.dump(o.CF)
+	beforeCF := o.CF
 	if o.Kind == "checksum" && c11ChecksumCF != "-" {
-		before = m.dump(c11ChecksumCF)
+		beforeCF = c11ChecksumCF
+	}
+	beforeMap := make(map[string][]byte, len(m.cfs[beforeCF])) // values are never modified in place
+	for k, v := range m.cfs[beforeCF] {
+		beforeMap[k] = v
 	}
 	h := env.hooks[o.Client]
 	var x c11Res
 	var obs c11CallObs
 	detail := func() any {
 		return map[string]any{"stream": s.stream, "seq": s.seq, "op_index": i, "stores": s.nStores, "atomic_mode": s.atomic, "epoch_repair": c11RepairEpochs.Load(),
-			"layout_before": layoutBefore, "layout_after": env.layout(), "map_before": before, "op": o.desc(), "result": x.desc(), "observed": obs}
+			"layout_before": layoutBefore, "layout_after": env.layout(), "map_before": c11DumpMap(beforeMap), "op": o.desc(), "result": x.desc(), "observed": obs}
 	}
 	if os.Getenv("VERIF_C11_TRACE") != "" {
 		b, _ := json.Marshal(map[string]any{"i": i, "op": o.desc(), "layout": layoutBefore})
@@ -939,6 +942,16 @@ func c11RunSequence(t *testing.T, r *vrep.Report, stream string, seq int, nOps i
 			}
 		}
 	}
+	g.qLetter = byte('a' + rng.Intn(8))
+	if rng.Intn(3) == 0 {
+		// a third of the sequences start with ~800 more pairs in the default
+		// column family, so that big batches meet > 512 present keys per region
+		for _, n := range rng.Perm(2000)[:800] {
+			k, v := []byte(fmt.Sprintf("%cq%04d", g.qLetter, n)), g.val()
+			env.raw.RawPut("", k, v)
+			m.put("", k, v)
+		}
+	}
 	t.Logf("[c11] sequence %s-%d: stores=%d atomic=%v layout=%v", stream, seq, nStores, atomicMode, env.layout())
 	r.Flush()
 	s := &c11Seq{t: t, r: r, env: env, m: m, stream: stream, seq: seq, nStores: nStores, atomic: atomicMode}
@@ -1010,7 +1023,7 @@ func TestVerifC11Sequential(t *testing.T) {
 	r.Floor("class_end-on-border", 300)
 	r.Floor("class_dups", 800)
 	r.Floor("class_key-on-border", 1500)
-	r.Floor("class_big-batch", 40)
+	r.Floor("class_big-batch", 30)
 	r.Floor("class_prev-not-exist-on-absent", 30)
 	r.Floor("class_prev-not-exist-on-present", 30)
 	r.Floor("class_prev-matches", 30)
